@@ -250,5 +250,6 @@ pub fn run(tier: Tier, seed: u64) -> i32 {
     };
     st.merge(crate::props::c13::reuse_part(&deadline));
     st.merge(crate::props::c13::api_use_part(&deadline));
+    st.merge(crate::props::c14::cloned_signal_list_part(&deadline));
     finish(meta, st, started)
 }
